@@ -1588,3 +1588,86 @@ def r_values_not_rounded(ctx, f: FunctionInfo, rule="R-ROUND", chain=None):
                "irrational amplitudes (1/sqrt(n)) are truncated, so the result is not normalised and its defining identities fail beyond that precision", bad, chain=chain)
     else:
         ctx.ob(rule, f, key, True, f"{sites} rounding call(s), none with a decimals argument", chain=chain)
+
+
+# ---------------------------------------------------------------------------------------------
+def r_dense_into_kron(ctx, f: FunctionInfo, rule="R-SPARSE", chain=None):
+    """np.kron (and toqito's tensor(), which folds with np.kron) does not form the Kronecker product of scipy.sparse operands:
+    it returns an object of the wrong shape without raising.  A value that may be sparse -- the result of a call whose
+    `is_sparse` argument is not the literal False, or of a csr/csc/dia constructor -- must not reach such a call."""
+    m = ctx.model
+    og = origins(f)
+    producers = []
+    for n in walk_no_nested(f.node):
+        if not isinstance(n, ast.Call):
+            continue
+        k = m.resolve_call(f, n).key or ""
+        tail = k.rsplit(".", 1)[-1]
+        if tail in ("csr_array", "csr_matrix", "csc_array", "csc_matrix", "dia_matrix", "dia_array", "coo_matrix", "coo_array", "lil_matrix") or k.startswith("scipy.sparse."):
+            if tail not in ("issparse", "isspmatrix"):
+                producers.append(n)
+            continue
+        callee = m.functions.get(k)
+        if callee is None:
+            continue
+        try:
+            b = m.bind(n, callee)
+        except Exception:  # noqa: BLE001
+            continue
+        a = b.get("is_sparse")
+        if isinstance(a, ast.AST) and not (isinstance(a, ast.Constant) and a.value is False):
+            producers.append(n)
+        elif a is not None and not isinstance(a, ast.AST):
+            # the callee's own default
+            dflt = next((p.default for p in callee.params if p.name == "is_sparse"), None)
+            if isinstance(dflt, ast.Constant) and dflt.value is True:
+                producers.append(n)
+    # not producers after all: densified on the spot (`f(..., True).toarray()`), or an operand of a sum / difference (dense + sparse
+    # is dense)
+    par = _parents(f.node)
+    keep = []
+    for n in producers:
+        p_ = par.get(id(n))
+        if isinstance(p_, ast.Attribute) and p_.attr in ("toarray", "todense"):
+            continue
+        q_, dense_sum = p_, False
+        while q_ is not None and not isinstance(q_, ast.stmt):
+            if isinstance(q_, ast.BinOp) and isinstance(q_.op, (ast.Add, ast.Sub)):
+                dense_sum = True
+            q_ = par.get(id(q_))
+        if not dense_sum:
+            keep.append(n)
+    producers = keep
+    pid = {id(x) for x in producers}
+    tainted = set()
+    for n in walk_no_nested(f.node):
+        if isinstance(n, ast.Assign) and any(id(x) in pid for x in ast.walk(n.value)):
+            for t in n.targets:
+                tainted |= {x.id for x in ast.walk(t) if isinstance(x, ast.Name)}
+        if isinstance(n, ast.Call) and isinstance(n.func, ast.Attribute) and n.func.attr in ("append", "extend", "insert") and isinstance(n.func.value, ast.Name) \
+                and any(id(x) in pid for a in n.args for x in ast.walk(a)):
+            tainted.add(n.func.value.id)
+    # a later densification of the same name (x = x.toarray()) clears nothing here: flow-insensitive, so only report when no
+    # densifying call wraps the operand itself
+    bad, sites = None, 0
+    for n in walk_no_nested(f.node):
+        if not isinstance(n, ast.Call):
+            continue
+        k = m.resolve_call(f, n).key or ""
+        if not (k == "numpy.kron" or k.endswith("tensor.tensor")):
+            continue
+        sites += 1
+        for a in list(n.args) + [kw.value for kw in n.keywords]:
+            if isinstance(a, ast.Call) and isinstance(a.func, ast.Attribute) and a.func.attr in ("toarray", "todense"):
+                continue
+            direct = any(id(x) in pid for x in ast.walk(a))
+            names = og.of(a) | {x.id for x in ast.walk(a) if isinstance(x, ast.Name)}
+            if direct or names & tainted:
+                bad = bad or (n, a)
+    key = "no possibly-sparse value is handed to np.kron / tensor()"
+    if bad is not None:
+        n, a = bad
+        ctx.ob(rule, f, key, False, f"`{unparse(n)[:60]}`: the operand `{unparse(a)[:40]}` may be a scipy.sparse array "
+               f"(from `{unparse(producers[0])[:50]}`); np.kron does not build the Kronecker product of sparse operands and returns an array of the wrong shape", n, chain=chain)
+    else:
+        ctx.ob(rule, f, key, True, f"{sites} kron / tensor call(s), {len(producers)} possibly-sparse producer(s), none connected", chain=chain)
